@@ -24,7 +24,7 @@ LAYOUTS = list(gen.LAYOUTS)
 
 OPS = [
     ("getitem_int", ao.op_getitem_int), ("getitem_slice", ao.op_getitem_slice), ("getitem_mask", ao.op_getitem_mask),
-    ("getitem_idx", ao.op_getitem_idx), ("take", ao.op_take), ("concat", ao.op_concat), ("simple", ao.op_simple),
+    ("getitem_idx", ao.op_getitem_idx), ("take", ao.op_take), ("concat", ao.op_concat), ("simple", ao.op_simple), ("iterate", ao.op_iterate),
     ("setitem", ao.op_setitem), ("setitem_series", lambda r, i: ao.op_setitem(r, i, via_series=True)),
     ("set_flat", lambda r, i: ao.op_set_flat(r, i, "array")), ("with_flat", lambda r, i: ao.op_set_flat(r, i, "with_flat_field")),
     ("set_lists", lambda r, i: ao.op_set_lists(r, i, "array")), ("with_list", lambda r, i: ao.op_set_lists(r, i, "with_list_field")),
